@@ -58,6 +58,7 @@ static void judge_hostile(Ctx& ctx, const Case& c, bool from_replay) {
   catch (const std::exception& e) { other_exc = true; what = std::string("std::exception: ") + e.what(); }
   catch (...) { other_exc = true; what = "unknown exception"; }
   alarm(0);
+  const long long live1 = vfalloc::g_live_count;   // before the monitor itself allocates anything
   double ms = std::chrono::duration<double, std::milli>(std::chrono::steady_clock::now() - t0).count();
   ctx.evaluated();
   int op = (int)c.geti("op");
@@ -66,14 +67,13 @@ static void judge_hostile(Ctx& ctx, const Case& c, bool from_replay) {
   ctx.cmax("max_case_ms", (long long)ms);
   ctx.cmax("max_case_peak_heap_kb", (vfalloc::g_peak_bytes - base_bytes) >> 10);
   if (other_exc) { ctx.violation("C10.unexpected_exception", { std::string("op_") + kOpName[op] }, c, what); return; }
-  long long live1 = vfalloc::g_live_count;
   if (live1 != live0) {
     // confirm on a second run (one-time lazy initialisation cannot repeat)
     long long l0 = vfalloc::g_live_count; Acc a2;
     try { run_op(c, a2); } catch (...) {}
     long long l1 = vfalloc::g_live_count;
     if (l1 != l0) { ctx.violation("C10.leak", { std::string("op_") + kOpName[op] }, c, std::to_string(l1 - l0) + " operator-new blocks still live after every object of the call was destroyed"); return; }
-    ctx.count("one_time_allocations_seen");
+    ctx.count("one_time_allocations_seen"); ctx.count(std::string("one_time_op_") + kOpName[op]);
   }
   if (!from_replay) {
     bool degenerate = false;
